@@ -22,13 +22,14 @@ import (
 )
 
 type c12Runner struct {
-	rp     *verifmc.Report
-	w      *c12World
-	pl     c12Plan
-	cur    *c12Case
-	proofs map[string][]verifmc.Hash
-	nviol  int
-	ops    map[string]float64
+	rp         *verifmc.Report
+	w          *c12World
+	pl         c12Plan
+	cur        *c12Case
+	proofs     map[string][]verifmc.Hash
+	nviol      int
+	deviations []string // pristine-server behaviour differing from the expected one (not violations)
+	ops        map[string]float64
 }
 
 func (r *c12Runner) flag() string {
@@ -370,7 +371,6 @@ func (r *c12Runner) runTiles(l *c12Log, c *c12Case) string {
 		targets = append(targets, l.targets(t)...)
 		label = append(label, c12ObjKind(t.Obj)+":"+t.Kind)
 	}
-	l.tr.over = over
 	ok, total := 0, 0
 	count := func(b bool) {
 		total++
@@ -378,6 +378,26 @@ func (r *c12Runner) runTiles(l *c12Log, c *c12Case) string {
 			ok++
 		}
 	}
+	if l.archival {
+		// State might leak between calls and clients: on logs with archival leaves the tampered
+		// server is driven (a) through fresh clients, (b) through the long-lived clients right after
+		// a pristine iteration from 0 and one from a later start on the same client.
+		saved, savedAllow := l.client, l.clientAllow
+		l.client, l.clientAllow = l.newClient(false), l.newClient(true)
+		l.tr.over = over
+		r.tileOps(l, c, targets, count)
+		l.client, l.clientAllow = saved, savedAllow
+		l.tr.over = nil
+		r.iterate(l, 0, true)
+		r.iterate(l, int64(l.n/2), false)
+	}
+	l.tr.over = over
+	r.tileOps(l, c, targets, count)
+	return fmt.Sprintf("%s/%s/%s", c.Family, strings.Join(label, "+"), c12Outcome(ok, total))
+}
+
+// tileOps runs the client calls of one tile/pair case against the currently served objects.
+func (r *c12Runner) tileOps(l *c12Log, c *c12Case, targets []int, count func(bool)) {
 	// quick tier, single byte flips: the scan from 0 is done through AllEntries only
 	// (it runs Entries from 0 and then the tail), Entries from the other starts.
 	lean := !r.pl.thorough && len(c.Tampers) == 1 && c.Tampers[0].Kind == "flip"
@@ -416,14 +436,21 @@ func (r *c12Runner) runTiles(l *c12Log, c *c12Case) string {
 		}
 		k++
 	}
-	return fmt.Sprintf("%s/%s/%s", c.Family, strings.Join(label, "+"), c12Outcome(ok, total))
 }
 
-// runPristine demands full success on the untampered server (harness sanity:
-// a failure here is an engine error, not a verdict).
+// runPristine drives the untampered server and compares with the expected
+// behaviour (full success; refusal of archival leaves without the flag). A
+// deviation (honest data refused, fewer entries than expected) is outside C12
+// and not a violation: it is recorded in the evidence and the run continues.
+// The oracle (everything yielded is the committed leaf) applies here as anywhere.
 func (r *c12Runner) runPristine(l *c12Log) string {
+	ndev := 0
 	fail := func(format string, a ...any) {
-		panic(verifmc.EngineError{Msg: "c12: pristine log " + l.id + ": " + fmt.Sprintf(format, a...)})
+		ndev++
+		r.rp.Add("pristine_deviations", 1)
+		if len(r.deviations) < 8 {
+			r.deviations = append(r.deviations, "pristine log "+l.id+r.flag()+": "+fmt.Sprintf(format, a...))
+		}
 	}
 	before := r.nviol
 	allow := r.cur.Allow
@@ -483,9 +510,11 @@ func (r *c12Runner) runPristine(l *c12Log) string {
 			fail("Issuer %d failed", j)
 		}
 	}
-	if r.nviol != before && !l.evil {
-		// violations on a pristine honest log are reported as such (already recorded)
-		return "pristine/violation"
+	if r.nviol != before {
+		return "pristine/violation" // already recorded
+	}
+	if ndev > 0 {
+		return "pristine/deviation"
 	}
 	return "pristine/ok"
 }
